@@ -6,7 +6,7 @@ every call (the same value is passed to the model as the ambient precision).
 
 Oracle (Python, written from the property statement, independent of the Lean model): the firmware
 recurrence by brute force for T <= 20000 and exact-integer closed forms beyond; the closed forms are
-validated against brute force in the same run. The Lean Spec (`Fw.t3Spec`, `Fw.t3Rate`) is asked through
+validated against brute force in the same run (and tick by tick on one move of about 2^22 ticks). The Lean Spec (`Fw.t3Spec`, `Fw.t3Rate`) is asked through
 the driver as a second opinion for small T.
 
 This module also holds the oracle helpers and generators shared with C17 (`harness/c17.py` imports them).
@@ -20,7 +20,10 @@ RULE = ('one case per input tuple (T, rate, accel, jerk, accumulator|clear) insi
         'exhaustive small box, the 7 outcomes of the three-level clear test, accel parity x jerk mod 6 x signs (both sides '
         'of the 0.01 snap), T in {1,2,3,4}, a rate exactly on a bound of the signed 32-bit range (end / first / vertex / '
         'interior tick equal to -2^31, 2^31-1, -(2^31-1)), magnitudes at the edge of firmware validity (jerk at the Markov limit, '
-        'T up to 2^32 with zero jerk), zero jerk, random; non-trivial = first-tick rate zero, or non-zero snap '
+        'T up to 2^32 with zero jerk), zero jerk, solved quotient/remainder splits (total accumulator = k 2^31 + r with r at '
+        'distance 0, 1, 2, 3 or about 2^j from the top / bottom / middle of [0, 2^31), by solving for the start accumulator or, with '
+        'a cleared accumulator, for the start rate; multi-million-tick zero-jerk moves with |total| from 2^53 to 2^63 in '
+        'both directions, and every other family), random; non-trivial = first-tick rate zero, or non-zero snap '
         'correction, or T > 4; distinct by input tuple')
 TRUSTED = ['translator/pynum2lean.py (validated by this correspondence run)',
            'Rounding.ieee as model of binary64 and of mpmath at 103 bits / the ambient precision (validated by this run)',
@@ -327,6 +330,127 @@ def gen_vertex(rng):
     return T, rate, accel, jerk
 
 
+# ---- solved quotient/remainder splits: the total accumulator lands exactly on (or next to) a multiple of 2^31 ----
+SPLIT_WHERE = ['top', 'top', 'top', 'bottom', 'bottom', 'mid']
+
+
+def split_target(rng, where):
+    """a remainder in [0, 2^31): at distance d from the top (2^31-1-d), from the bottom (d) or from the middle; d = 0, 1,
+    2, 3, or next to a power of two up to 2^22 (a quotient rounded to p bits crosses an integer inside a window whose
+    width is a power of two that depends on p and on the size of the total)"""
+    j = rng.choice([rng.randint(1, 4), rng.randint(1, 12), rng.randint(1, 22)])
+    d = rng.choice([0, 0, 0, 0, 1, 1, 2, 3, 2 ** j, 2 ** j - 1, 2 ** j + 1, rng.randint(0, 2 ** j)])
+    if where == 'top':
+        return M31 - 1 - d
+    if where == 'bottom':
+        return d
+    return (M31 // 2 + rng.choice([-1, 1]) * d) % M31
+
+
+def gen_long_flat(rng, sign, T=None, full=False):
+    """zero-jerk move of 2^22 .. 2^32 ticks (no other jerk is firmware-valid at that length: a quadratic rate with
+    leading coefficient jerk/2 swings by >= |jerk| (T-1)^2 / 8 > 2^32) running close to full speed in direction `sign`:
+    net travel 2^22 .. 2^32 steps, |total accumulator| 2^53 .. 2^63"""
+    T = T or rng.choice([2 ** 22 + rng.randint(0, 64), rng.randint(2 ** 22, 2 ** 23), rng.randint(2 ** 22, 2 ** 26),
+                         2 ** rng.randint(22, 31) + rng.randint(-3, 3), rng.randint(2 ** 26, 2 ** 32),
+                         2 ** 32 - rng.randint(0, 2)])
+    T = max(2 ** 22, T)
+    amax = (2 * (M31 - 1)) // (T - 1)
+    accel = rng.choice([0, 0, 0, rng.choice([-1, 1]), rng.choice([-1, 1]), rng.randint(-amax, amax),
+                        rng.choice([-1, 1]) * max(0, amax - rng.randint(0, 1))])
+    if full:                                                    # stays next to full speed for the whole move
+        accel = rng.randint(-min(amax, 3), min(amax, 3))
+    if abs(accel) > amax:
+        accel = 0
+    span = (T - 1) * accel
+    lo, hi = -M31 - min(0, span), (M31 - 1) - max(0, span)      # tick-1 rate with r_1 and r_T both in range
+    u = rng.choice([0, 0, 0, rng.randint(0, 3), rng.randint(0, (hi - lo) // 4), rng.randint(0, (hi - lo) // 2),
+                    rng.randint(0, hi - lo)])
+    u = rng.randint(0, 3) if full else u
+    r1 = hi - u if sign > 0 else lo + u
+    rate = r1 - accel + tdiv(accel, 2)
+    return T, rate, accel, 0
+
+
+def gen_split(rng, cls=None, sign=None, where=None, mode=None):
+    """a move whose exact total accumulator is k 2^31 + r with r SOLVED FOR (top / bottom / middle of [0, 2^31) and
+    neighbours): position = floor(total / 2^31) and the remainder are then one rounding error away from a wrong answer.
+    cls 'long': zero-jerk moves with |total| up to 2^63, both directions; cls 'any': a move of any other family
+    (jerk at the Markov limit, rate on a range bound, random).  mode 'given': the start accumulator is solved for;
+    mode 'clear': the accumulator is cleared (0 / 2^31-1 by the clear rule) and the start RATE is solved for
+    (total is affine in rate with slope T: T odd is invertible mod 2^31)."""
+    cls = cls or rng.choice(['long', 'long', 'long', 'any'])
+    sign = sign or rng.choice([-1, 1])
+    where = where or rng.choice(SPLIT_WHERE)
+    mode = mode or rng.choice(['given', 'given', 'clear'])
+    base = None
+    if cls == 'long':
+        base = gen_long_flat(rng, sign)
+    else:
+        for _ in range(20):
+            c = rng.choice([gen_extreme, gen_extreme, gen_bound, gen_random])(rng)
+            if c[0] >= 2 and firmware_valid(*c):
+                base = c
+                break
+    if base is None or not firmware_valid(*base):
+        base = gen_long_flat(rng, sign)
+        base = base if firmware_valid(*base) else (2 ** 22 + 1, sign * (M31 - 1), 0, 0)
+    T, rate, accel, jerk = base
+    r = split_target(rng, where)
+    if mode == 'clear':
+        if T % 2 == 0:
+            T2 = T - 1 if T > 1 else T + 1
+            if firmware_valid(T2, rate, accel, jerk):
+                T = T2
+        if T % 2 == 1:
+            inv = pow(T, -1, M31)
+            for a0 in ((M31 - 1, 0) if sign < 0 else (0, M31 - 1)):
+                d0 = ((r - total_at(rate, accel, jerk, T, a0)) * inv) % M31
+                for d in ((d0 - M31, d0) if sign > 0 else (d0, d0 - M31)):   # keep the rate large in direction `sign`
+                    cand = (T, rate + d, accel, jerk)
+                    if firmware_valid(*cand) and clear_value(*cand[1:]) == a0:
+                        assert spec_dist(T, rate + d, accel, jerk, 'clear')[1] == r
+                        return cand + ('clear',)
+    acc = (r - total_at(rate, accel, jerk, T, 0)) % M31
+    assert spec_dist(T, rate, accel, jerk, acc)[1] == r
+    return T, rate, accel, jerk, acc
+
+
+def gen_split_fixed(rng):
+    """one solved split per (class, direction, end of the remainder range, accumulator mode): always generated"""
+    out = []
+    for cls in ('long', 'any'):
+        for sign in (1, -1):
+            for where in ('top', 'bottom'):
+                for mode in ('given', 'clear'):
+                    for _ in range(40):
+                        c = gen_split(rng, cls, sign, where, mode)
+                        pos, rem = spec_dist(*c)
+                        if cls == 'any' or ((pos >= 2 ** 22 if sign > 0 else pos < -2 ** 22) and min(rem, M31 - 1 - rem) <= 3
+                                            and (c[4] == 'clear') == (mode == 'clear')):
+                            break               # 'long': really beyond 2^53 in that direction, remainder within 3 of the end
+                    out.append(c)
+    return out
+
+
+def brute_long(T, rate, accel, jerk):
+    """the recurrence tick by tick without storing the sequence: (sum of rates, last rate, min rate, max rate, max |accel|)"""
+    r = r_start(rate, accel, jerk)
+    a = accel
+    tot, lo, hi, amx = 0, None, None, abs(a)
+    for _ in range(T):
+        r += a
+        a += jerk
+        tot += r
+        if lo is None or r < lo:
+            lo = r
+        if hi is None or r > hi:
+            hi = r
+        if abs(a) > amx:
+            amx = abs(a)
+    return tot, r, lo, hi, amx
+
+
 # ------------------------------------------------------------------------------------------------
 # the check
 # ------------------------------------------------------------------------------------------------
@@ -391,6 +515,10 @@ def gen_cases(ctx):
     for (T, rate, accel, jerk) in small_box(1, 3):
         for acc in ('clear', 0, M31 - 1):
             out.append((T, rate, accel, jerk, acc))
+    # solved quotient/remainder splits (total = k 2^31 + r, r at the ends of [0, 2^31)), |total| up to 2^63, both directions
+    out += gen_split_fixed(rng)
+    for _ in range(ctx.n(1200)):
+        out.append(gen_split(rng))
     return out
 
 
@@ -398,6 +526,14 @@ def run(ctx):
     from plotink import ebb_calc
     rng = ctx.rng
     cases = gen_cases(ctx)
+    # one multi-million-tick move per run is also walked tick by tick (the closed-form oracle is otherwise validated
+    # against the recurrence for T <= BRUTE_MAX_T only); its accumulator is solved for the top of the remainder range
+    long_brute = None
+    if not getattr(ctx, '_in_sitecov', False):
+        b = gen_long_flat(rng, rng.choice([-1, 1]), T=2 ** 22 + 2 ** 14 + rng.randint(1, 64), full=True)
+        if firmware_valid(*b):
+            long_brute = b + ((M31 - 1 - rng.choice([0, 0, 1]) - total_at(b[1], b[2], b[3], b[0], 0)) % M31,)
+            cases.append(long_brute)
     lines, meta = [], []
     for c in cases:
         T, rate, accel, jerk, acc = c
@@ -456,6 +592,13 @@ def run(ctx):
         else:
             want_rate = rate_at(rate, accel, jerk, T)
             want_dist = spec_dist(T, rate, accel, jerk, acc)
+            if c is long_brute:
+                tot, last, lo_b, hi_b, amx = brute_long(T, rate, accel, jerk)
+                if last != want_rate or spec_dist(T, rate, accel, jerk, acc, brute_tot=tot) != want_dist or \
+                        (lo_b, hi_b) != rate_range(T, rate, accel, jerk) or amx > M31:
+                    raise Infra(f'harness bug: closed form disagrees with the tick-by-tick recurrence on {inp}')
+                ctx.notes.append(f'closed forms also validated tick by tick on one move of {T} ticks '
+                                 f'(position {want_dist[0]}, remainder {want_dist[1]})')
         cs = correction_sixths(accel, jerk)
         path = (clear_path(rate, accel, jerk) if acc == 'clear' else 'given') + ('|snap' if cs == 0 else '|nosnap') + \
                ('|brute' if T <= BRUTE_MAX_T else '|closed')
@@ -467,6 +610,11 @@ def run(ctx):
                          ('max=2^31-1 inside', hi == M31 - 1 and want_rate != M31 - 1)):
             if hit:
                 ctx.paths['bound:' + tag] = ctx.paths.get('bound:' + tag, 0) + 1
+        size = 'total>=2^53' if want_dist[0] >= 2 ** 22 else 'total<-2^53' if want_dist[0] < -2 ** 22 else None
+        end = 'top' if want_dist[1] >= M31 - 4 else 'bottom' if want_dist[1] <= 3 else None
+        if size and end:
+            tag = f'split:{size},remainder at the {end}'
+            ctx.paths[tag] = ctx.paths.get(tag, 0) + 1
         judged.append((c, dps, want_dist, want_rate))
         ctx.sample({'input': inp, 'impl': [i_dist, i_rate], 'required': [pyval(want_dist), want_rate]})
         if s_dist not in (None, 'BAD') and (s_dist != pyval(want_dist) or s_rate != str(want_rate)):
@@ -525,6 +673,7 @@ def run(ctx):
     need = [p for p in need if not p.startswith('r1=r2=r3=0|nosnap')]   # accel = jerk = 0 always snaps
     need += ['bound:end=-2^31', 'bound:end=2^31-1', 'bound:end=-(2^31-1)', 'bound:min=-2^31 inside',
              'bound:max=2^31-1 inside', 'sequence']
+    need += [f'split:{size},remainder at the {end}' for size in ('total>=2^53', 'total<-2^53') for end in ('top', 'bottom')]
     missing = [p for p in need if ctx.paths.get(p, 0) == 0]
     if missing:
         raise Infra(f'model paths without input: {missing}')
